@@ -90,7 +90,7 @@ def commitShape (batches : List (List RawOp)) (version : Int) : Option (List Nam
     if finOk && order.length = sb.length && (sb.zip order).all (fun (b, n) => b.all fun op => op.key.store? = some n)
     then some order else none
 
-def step (st : St) (pre post : List String) : St × Verdict :=
+def stepCore (st : St) (pre post : List String) : St × Verdict :=
   match pre with
   | ["hist", _, ns] =>
     let names := (ns.splitOn ",").map nameOf
@@ -167,13 +167,18 @@ def step (st : St) (pre post : List String) : St × Verdict :=
       | some iver, some ihash, some t =>
         let st' := { st with obs := st.obs.map fun e => if e.1 = v then (e.1, { e.2 with stores := (nameOf store, iver, ihash, live) :: e.2.stores }) else e }
         if live ≠ oracle then (st', pf st "live-contents-differ-from-map" s!"store {store} v{v}: live={live} oracle={oracle}")
-        else match cmpStore t iver ihash live with
-          | some e => (st', .diff s!"state {store} v{v}: {e}")
-          | none =>
+        else
+          let spec : Option Verdict :=
             match (st.orig.find? (·.1 = v)).bind (fun e => obsStore e.2 (nameOf store)) with
             | some (_, ohash, odump) =>
-              if odump ≠ live ∨ ohash ≠ ihash then (st', pf st "reexec-state-differs" s!"store {store} v{v}: uninterrupted {renderHash ohash} {odump}, now {renderHash ihash} {live}")
-              else (st', .ok)
+              if odump ≠ live ∨ ohash ≠ ihash then some (pf st "reexec-state-differs" s!"store {store} v{v}: uninterrupted {renderHash ohash} {odump}, now {renderHash ihash} {live}")
+              else none
+            | none => none
+          match spec with
+          | some vd => (st', vd)
+          | none =>
+            match cmpStore t iver ihash live with
+            | some e => (st', .diff s!"state {store} v{v}: {e}")
             | none => (st', .ok)
       | _, _, _ => (st, .bad "state fields")
     | _, _, _ => (st, .bad "state")
@@ -216,15 +221,19 @@ def step (st : St) (pre post : List String) : St × Verdict :=
     | [iver, ihash, dump], some m =>
       match iver.toInt?, parseHash ihash, aget (nameOf store) m.stores with
       | some iver, some ihash, some t =>
-        match cmpStore t iver ihash dump with
-        | some e => (st, .diff s!"rstate {store} v{st.peekVer}: {e}")
-        | none =>
+        let spec : Option Verdict :=
           match (st.obs.find? (·.1 = st.peekVer)).bind (fun e => obsStore e.2 (nameOf store)) with
-          | none => (st, .ok)   -- already reported on the reopen line
+          | none => none   -- already reported on the reopen line
           | some (lver, lhash, ldump) =>
-            if ldump ≠ dump then (st, pf st "reopen-contents-differ" s!"store {store} v{st.peekVer}: committed={ldump} reopened={dump}")
-            else if lhash ≠ ihash ∨ lver ≠ iver then (st, pf st "reopen-roothash-differs" s!"store {store} v{st.peekVer}: committed={lver} {renderHash lhash} reopened={iver} {renderHash ihash}")
-            else (st, .ok)
+            if ldump ≠ dump then some (pf st "reopen-contents-differ" s!"store {store} v{st.peekVer}: committed={ldump} reopened={dump}")
+            else if lhash ≠ ihash ∨ lver ≠ iver then some (pf st "reopen-roothash-differs" s!"store {store} v{st.peekVer}: committed={lver} {renderHash lhash} reopened={iver} {renderHash ihash}")
+            else none
+        match spec with
+        | some v => (st, v)
+        | none =>
+          match cmpStore t iver ihash dump with
+          | some e => (st, .diff s!"rstate {store} v{st.peekVer}: {e}")
+          | none => (st, .ok)
       | _, _, _ => (st, .bad "rstate fields")
     | _, _ => (st, .bad "rstate")
   | ["lazy", v] =>
@@ -313,5 +322,24 @@ def step (st : St) (pre post : List String) : St × Verdict :=
       | _, _ => (st, .bad "crash log")
     | _, _ => (st, .bad "crash")
   | _ => (st, .bad s!"unknown {pre}")
+
+/-- The driver step.  The implementation's own output contradicting the uninterrupted run (the property's
+statement) takes precedence over a model/implementation difference on the same line. -/
+def step (st : St) (pre post : List String) : St × Verdict :=
+  let (st', v) := stepCore st pre post
+  match pre, post with
+  | ["commit", _], ver :: hash :: _ =>
+    match parseCID ver hash with
+    | some cid =>
+      match st.orig.find? (·.1 = cid.version) with
+      | some e =>
+        if e.2.cid ≠ cid then
+          match v with
+          | .propfail .. => (st', v)
+          | _ => (st', pf st "reexec-commitid-differs" s!"height {cid.version}: uninterrupted {renderHash e.2.cid.hash}, now {hash}")
+        else (st', v)
+      | none => (st', v)
+    | none => (st', v)
+  | _, _ => (st', v)
 
 end DiskDriver
